@@ -50,3 +50,16 @@ def sha(obj) -> str:
     return hashlib.sha1(json.dumps(obj, sort_keys=True, ensure_ascii=False, default=str).encode("utf-8")).hexdigest()
 
 
+
+
+def known_signatures(pid):
+    """signatures of the open (status=known) entries of the committed known_findings.json for one property"""
+    import json
+    import os
+
+    path = os.path.join(os.path.dirname(os.path.dirname(os.path.abspath(__file__))), "known_findings.json")
+    if not os.path.exists(path):
+        return set()
+    with open(path, encoding="utf-8") as handle:
+        entries = json.load(handle).get("findings", [])
+    return {e.get("signature") for e in entries if e.get("property") == pid and e.get("status") == "known"}
